@@ -369,3 +369,14 @@ Proof.
   cbn [lossy_block_content forallb]. rewrite andb_true_r. unfold canon_para. cbn [forallb].
   rewrite (wf_field_canon _ _ Hf), (wf_items_canon _ _ Hits). reflexivity.
 Qed.
+
+(* ================================================================== the shape of the stability statements *)
+Definition stable {V : Type} (parse : str -> tres V) (print : V -> option str) (v : V) : Prop :=
+  exists t v', print v = Some t /\ parse t = TOk v' /\ v' = v /\ print v' = print v.
+Lemma stable_intro {V} (parse : str -> tres V) (print : V -> option str) v :
+  (exists t, print v = Some t /\ parse t = TOk v) -> stable parse print v.
+Proof. intros (t & H1 & H2). exists t, v. auto. Qed.
+
+(* the empty table (every external parser fails) satisfies the assumed law vacuously *)
+Lemma empty_table_stable : forall ll ids, ext_stable str table_print (table_parse []) ll ids.
+Proof. intros ll ids i x e _ _ H. discriminate. Qed.
